@@ -17,6 +17,11 @@ kinematics / camlight / refit_bvh / render run on the SAME context and every pix
 against oracle 1 (and the accessors). The length-3 histories are enumerated; the shorter ones are their prefixes (each frame is
 checked). x camera model (quick: two per history, cycling), two worlds with different poses; rendered groups / arrangement / culling /
 rays / rgb cycle.
+Camera selections (cam_active of create_render_context): the three cameras have different fovy / focal / orthographic extent and, here,
+three different resolutions; every ordered selection without repetition of the 3 cameras (15: singles, pairs and triples in every
+order) given as indices and as names, and every non-empty subset given as a boolean mask (7), x camera model (quick: two per selection and form, all four per ordered selection). Slot s of the context
+renders camera act[s] (the driver's own list, not the context's): its pixels are held against oracle 1 cast from THAT camera's pose and
+against oracle 2 through THAT camera's camprojection sensor, with that camera's resolution.
 """
 
 import itertools
@@ -31,14 +36,17 @@ LEVEL = "exploration"
 RULE = (
   "enumerate arrangements x camera model x resolution x nworld x rendered groups; every pixel of every camera in every world is "
   "compared with the brute-force ray cast of its own ray; histories: all sequences of <= 3 scene changes over {nothing, move bodies, "
-  "move cameras} re-rendered on one context, every frame compared; non-trivial = at least one pixel of some camera hits a geom; "
+  "move cameras} re-rendered on one context, every frame compared; camera selections: every ordered selection of the 3 (different) "
+  "cameras as indices / names and every subset as a boolean mask x camera model, each slot compared with its true camera; non-trivial = at least one pixel of some camera hits a geom; "
   "distinct = hash of the spec"
 )
 BOUNDS = {
   "quick": "3 arrangements x 4 camera models x 3 resolutions x nworld {1,2} x 3 group sets = 216 single-frame scenarios, 3 cameras each; "
-  "+ 27 histories (3 changes over {N,B,C}; all shorter ones are prefixes) x 2 of the 4 camera models (pairs cycling) at 8x8, nworld 2 = 54 scenarios of 4 frames",
+  "+ 27 histories (3 changes over {N,B,C}; all shorter ones are prefixes) x 2 of the 4 camera models (pairs cycling) at 8x8, nworld 2 = 54 scenarios of 4 frames; "
+  "+ 37 cam_active selections (15 ordered selections as indices, 15 as names, 7 boolean masks) x 2 of the 4 camera models (index and name form of one selection together see all 4) = 74 scenarios at (3x2, 2x3, 4x3)",
   "thorough": "9 arrangements x 4 camera models x 4 resolutions (+16x12) x nworld {1,2} x 3 group sets x both culling flags; "
-  "+ 27 histories x 4 camera models x 3 group sets x nworld {1,2} x resolutions {3x2, 8x8}",
+  "+ 27 histories x 4 camera models x 3 group sets x nworld {1,2} x resolutions {3x2, 8x8}; "
+  "+ 37 cam_active selections x 4 camera models x nworld {1,2} x resolutions {3x2, 8x8} (third camera (w+1) x (h+1))",
 }
 ASSUMPTIONS = [
   "oracle 1 is mjw.rays without a render context (C34 checks that function against mj_ray); depth class f32, ids exact; a depth-only "
@@ -49,6 +57,7 @@ ASSUMPTIONS = [
   "intrinsic cameras get a sensor with the aspect ratio of the rendered image (a mismatch is cropped by MJWarp and stretched by MuJoCo's projection; not part of the property)",
   "no OpenGL in the sandbox: MuJoCo's own renderer is not available as a reference; rgb/shading is out of scope of the property",
   "no transparent geoms in the scene (rays() skips alpha=0 geoms, the renderer draws them); flex is out of scope (C40)",
+  "cam_active selections hold no camera twice (a repeated camera is not excluded by the API but adds nothing to the property)",
   "histories change the state only (qpos, mocap pose), followed by kinematics, com_pos, camlight, refit_bvh; the model, the context options and the resolution stay fixed within a history",
 ]
 BUDGET = {"quick": 600, "thorough": 3000}
@@ -78,9 +87,23 @@ def cam_attrs(kind, res, i, aspect):
 
 
 def cam_resolutions(scn):
-  """Camera 1 renders the transposed resolution, so pixel offsets of the cameras differ."""
+  """Resolution of each camera of the MODEL. Camera 1 renders the transposed resolution, so pixel offsets of the cameras differ; in the
+  camera-selection scenarios the third camera differs from both (a slot rendered with another camera's resolution shows)."""
   w, h = scn["res"]
-  return [(w, h), (h, w), (w, h)]
+  return [(w, h), (h, w), (w + 1, h + 1) if "act" in scn else (w, h)]
+
+
+def cam_selections():
+  """Every cam_active of 3 cameras: ordered selections without repetition as indices and as names, subsets as boolean masks."""
+  out = []
+  for n in (1, 2, 3):
+    for sel in itertools.permutations(range(3), n):
+      out.append(("int", list(sel)))
+      out.append(("name", list(sel)))
+  for n in (1, 2, 3):
+    for sel in itertools.combinations(range(3), n):
+      out.append(("bool", list(sel)))
+  return out
 
 
 def build_xml(scn):
@@ -162,6 +185,23 @@ def scenarios(tier, seed):
                    rgb=(idx // 5) % 2, hist=hist)
             )  # fmt: skip
             idx += 1
+  # camera selections: slot != camera id, fewer slots than cameras, another order
+  sress = ((3, 2),) if tier == "quick" else ((3, 2), (8, 8))
+  sworlds = (None,) if tier == "quick" else (1, 2)
+  idx = 0
+  for si, (form, act) in enumerate(cam_selections()):
+    # quick: two of the four camera models per selection; the index form and the name form of one ordered selection (consecutive
+    # entries) take complementary pairs, so every ordered selection meets all four; the pair of a boolean mask cycles. thorough: all four
+    kinds = [CAM_KINDS[(si + (si // 2) % 2 + 2 * j) % 4] for j in range(2)] if tier == "quick" else CAM_KINDS
+    for ki, kind in enumerate(kinds):
+      for res in sress:
+        for nw in sworlds:
+          out.append(
+            dict(arr=(0, 3, 5)[idx % 3], kind=kind, res=list(res), resmode=("model", "arg")[(si // 2 + si + ki) % 2], nworld=1 + (idx // 8) % 2 if nw is None else nw,
+                 groups=(idx // 3) % len(GROUPSETS), cull=idx % 2, precomputed=int(idx % 5 != 4), variant=variant, rgb=(idx // 7) % 2,
+                 act=act, actform=form)
+          )  # fmt: skip
+          idx += 1
   return out
 
 
@@ -208,11 +248,18 @@ def execute(scn):
   groups = list(GROUPSETS[scn["groups"]])
   kw = dict(nworld=nworld, render_rgb=bool(scn["rgb"]), render_depth=True, render_seg=True, enabled_geom_groups=groups,
             enable_backface_culling=bool(scn["cull"]), use_precomputed_rays=bool(scn["precomputed"]))  # fmt: skip
-  rs = cam_resolutions(scn)
+  rs_cam = cam_resolutions(scn)
+  # slot s of the context renders camera act[s]; everything below is per slot, the true camera's data is looked up through act
+  act = list(scn.get("act", range(mjm.ncam)))
+  cam_names = ("cA", "cB", "cC")
+  if "act" in scn:
+    form = scn["actform"]
+    kw["cam_active"] = [cam_names[a] for a in act] if form == "name" else [i in act for i in range(mjm.ncam)] if form == "bool" else list(act)
+  rs = [rs_cam[a] for a in act]
   if scn["resmode"] == "arg":
     kw["cam_res"] = [tuple(r) for r in rs]
   rc = mjw.create_render_context(mjm, **kw)
-  ncam = mjm.ncam
+  ncam = len(act)
   npxs = [r[0] * r[1] for r in rs]
   offs = [0] + list(np.cumsum(npxs))
   nray = int(offs[-1])
@@ -220,6 +267,7 @@ def execute(scn):
   mask = tuple(1 if g in groups else 0 for g in range(6))
   gg = vec6(*[float(x) for x in mask])
   ortho = scn["kind"] == "ortho"
+  seltag = f" with cam_active={kw['cam_active']}" if "act" in scn else ""
   kindkey = scn["kind"]
   hits = miss = nb = nref = vacated = 0
   types_seen = set()
@@ -256,6 +304,7 @@ def execute(scn):
 
     if fi == 0:
       c.equal("cam_res", rc.cam_res.numpy(), np.array(rs), vkey="context:cam_res")
+      c.equal("cam_id_map", rc.cam_id_map.numpy(), np.array(act), vkey="context:cam_id_map")
       if not c.true("buffers", depth.shape == (nworld, nray) and table.shape[0] == nray, f"depth {depth.shape} rays {table.shape}", vkey="context:buffer_shape"):
         return c.result(nontrivial=False, key=key)
 
@@ -267,20 +316,21 @@ def execute(scn):
       elif scn["kind"] != "principal" and not hist:
         mjd = mjds[0]
         mjp = copy.deepcopy(mjm)  # camprojection works in the resolution stored in the model: give it the rendered one
-        mjp.cam_resolution[:] = np.array(rs)
+        mjp.cam_resolution[:] = np.array(rs_cam)
         worst = 0.0
         for ci in range(ncam):
           W = rs[ci][0]
           for k in range(npxs[ci]):
             px, py = k % W, k // W
-            dirw = mjd.cam_xmat[ci].reshape(3, 3) @ table[offs[ci] + k]
+            cid = act[ci]
+            dirw = mjd.cam_xmat[cid].reshape(3, 3) @ table[offs[ci] + k]
             pd = mujoco.MjData(mjp)
             pd.qpos[:] = mjd.qpos
-            pd.mocap_pos[probe_mid] = mjd.cam_xpos[ci] + 1.7 * dirw
+            pd.mocap_pos[probe_mid] = mjd.cam_xpos[cid] + 1.7 * dirw
             mujoco.mj_forward(mjp, pd)
-            got = np.array(pd.sensordata[2 * ci : 2 * ci + 2])
+            got = np.array(pd.sensordata[2 * cid : 2 * cid + 2])
             worst = max(worst, float(np.max(np.abs(got - np.array([px + 0.5, py + 0.5])))))
-        c.true("ray_table:projection", worst < 2e-3 * max(rs[0]), f"a point on a pixel's ray projects {worst:.4g} px away from the pixel centre (MuJoCo camprojection)", vkey=f"ray_table:projection:{kindkey}")
+        c.true("ray_table:projection", worst < 2e-3 * max(rs_cam[0]), f"a point on a pixel's ray projects {worst:.4g} px away from the pixel centre of its camera{seltag} (MuJoCo camprojection)", vkey=f"ray_table:projection:{kindkey}")
 
     # ---- oracle 1: every pixel against the brute-force cast of its own ray
     cam_xpos = d.cam_xpos.numpy().astype(np.float64)
@@ -290,8 +340,8 @@ def execute(scn):
     for w in range(nworld):
       for ci in range(ncam):
         sl = slice(offs[ci], offs[ci + 1])
-        P[w, sl] = cam_xpos[w, ci]
-        V[w, sl] = table[sl] @ cam_xmat[w, ci].T
+        P[w, sl] = cam_xpos[w, act[ci]]
+        V[w, sl] = table[sl] @ cam_xmat[w, act[ci]].T
     pnt = wp.array(P.astype(np.float32), dtype=wp.vec3)
     vec = wp.array(V.astype(np.float32), dtype=wp.vec3)
     exw = wp.array(np.full(nray, -1, dtype=np.int32), dtype=int)
@@ -352,7 +402,7 @@ def execute(scn):
           ci = int(cam_of[r])
           k = r - offs[ci]
           viol[vk][1] = (
-            f"{ftag}world {w} camera {ci} pixel ({k % rs[ci][0]},{k // rs[ci][0]}): render depth={depth[w, r]:.6g} seg={got_seg}; ray cast dist={d0:.6g} "
+            f"{ftag}world {w} camera {act[ci]}{seltag and f' (slot {ci}{seltag})'} pixel ({k % rs[ci][0]},{k // rs[ci][0]}): render depth={depth[w, r]:.6g} seg={got_seg}; ray cast dist={d0:.6g} "
             f"-> depth={want_depth:.6g} seg={want_seg}; mj_ray=({ref[0]:.6g}, {ref[1]}){note}"
           )
     c.nchecked += nworld * nray
